@@ -277,7 +277,7 @@ lemma pathProb_eq_prod (net : Net) (hwf : Net.wf net = true) (a : St)
     intro done σ ht hd hvs
     have hvl := hvs v List.mem_cons_self
     obtain ⟨var, hvar⟩ : ∃ var, net[v]? = some var := ⟨net[v], List.getElem?_eq_getElem hvl⟩
-    simp only [topoOK, hvar, Bool.and_eq_true, List.all_eq_true, List.contains_iff_mem] at ht
+    simp only [topoOK, parentsOK, hvar, Bool.and_eq_true, List.all_eq_true, List.contains_iff_mem] at ht
     have hw := wf_var hwf hvar
     have hstep : stepProb net v σ (a v) = cptProb net v a :=
       stepProb_eq_cptProb hvar hw (fun p hp => hd p (ht.1 p hp)) (fun p hp => ha p (hw.parents p hp))
